@@ -562,6 +562,9 @@ def root_of(method, base, form, eff_form, dtype, impl, cutoff, mode, max_bond, p
             c.append("generic-renorm-power-from-mode")
     if DOC[base]["kind"] == "iter" and p > 0:
         c.append("iterative-renorm-partial-spectrum")
+    # the narrowest explanation first: a root that can only affect one clause wins over a
+    # root that garbles everything (so repairing the broad one leaves no stale attribution)
+    c.sort(key=lambda r: len(ROOT_CHECKS[r]))
     return c
 
 
